@@ -115,6 +115,210 @@ def run(ctx: Ctx):
     ctx.guarded(inverse_mirror, ctx, fis["partial_unfold"], fis["partial_fold"])
     ctx.guarded(forward, ctx, fis["partial_tensor_to_vec"], fis["partial_unfold"], {"mode": 0, "ravel_tensors": True})
     ctx.guarded(forward, ctx, fis["partial_vec_to_tensor"], fis["partial_fold"], {"mode": 0})
+    res.rule("PRIM-IS-NUMPY", "the NumPy backend's reshape / moveaxis / transpose -- the primitives whose NumPy semantics the other rules trust -- are NumPy's own functions: registered under their own name with getattr(np, name) / np.<name>, or a method of NumpyBackend that returns exactly np.<name>(its parameters). A wrapper that post-processes the result (copy, contiguity, conversion) is no longer the trusted bijection: it may drop what NumPy's function keeps (subclass, mask, strides, dtype)", floor=3)
+    ctx.guarded(prim_is_numpy, ctx)
+
+
+# ---------------------------------------------------------------------------------
+# PRIM-IS-NUMPY: the trusted base is what it is assumed to be
+# ---------------------------------------------------------------------------------
+def _module_registrations(repo, mod):
+    """(name -> [(holder expression text, attribute name, node)]) for every `X.register_method(name, func)`
+    executed at module level, read by a small evaluator of the registration loops: `for` over literal
+    sequences (concatenations, names of module-level sequences of this module or of the module they are
+    imported from, tuples of (module, names)), nested loops, positional or keyword arguments.
+    Raises AnalysisError on a registration whose name or function it cannot evaluate."""
+    consts = {}
+
+    def module_consts(m):
+        out = {}
+        for st in m.tree.body:
+            if isinstance(st, ast.Assign) and len(st.targets) == 1 and isinstance(st.targets[0], ast.Name) and isinstance(st.value, (ast.List, ast.Tuple, ast.BinOp)):
+                out[st.targets[0].id] = (m, st.value)
+        return out
+
+    consts.update(module_consts(mod))
+    for st in mod.tree.body:
+        if isinstance(st, ast.ImportFrom):
+            target = None
+            if target is None:
+                base = mod.name.rsplit(".", st.level)[0] if st.level else ""
+                cand = (base + "." + st.module) if st.level and st.module else (st.module or base)
+                target = repo.modules.get(cand)
+            if target is not None:
+                tc = module_consts(target)
+                for a in st.names:
+                    if a.name in tc:
+                        consts[a.asname or a.name] = tc[a.name]
+
+    def seq(e, env):
+        """list of element nodes / values, or None"""
+        if isinstance(e, (ast.List, ast.Tuple)):
+            return list(e.elts)
+        if isinstance(e, ast.BinOp) and isinstance(e.op, ast.Add):
+            l, r = seq(e.left, env), seq(e.right, env)
+            return None if l is None or r is None else l + r
+        if isinstance(e, ast.Name):
+            if e.id in env:
+                v = env[e.id]
+                return seq(v, env) if isinstance(v, ast.AST) else None
+            if e.id in consts:
+                return seq(consts[e.id][1], {})
+        if isinstance(e, ast.Call) and isinstance(e.func, ast.Name) and e.func.id in ("list", "tuple", "sorted") and len(e.args) == 1:
+            return seq(e.args[0], env)
+        return None
+
+    def val(e, env):
+        for _ in range(8):
+            if isinstance(e, ast.Name) and e.id in env:
+                e = env[e.id]
+            elif isinstance(e, ast.Subscript) and isinstance(val(e.slice, env), ast.Constant) and isinstance(val(e.slice, env).value, int):
+                items = seq(e.value, env)
+                i = val(e.slice, env).value
+                if items is None or not (-len(items) <= i < len(items)):
+                    return e
+                e = items[i]
+            else:
+                break
+        return e
+
+    helpers = {st.name: st for st in mod.tree.body if isinstance(st, ast.FunctionDef)}
+
+    def registers(node):
+        return any(isinstance(c, ast.Call) and ((isinstance(c.func, ast.Attribute) and c.func.attr == "register_method") or (isinstance(c.func, ast.Name) and c.func.id in helpers and c.func.id in registering)) for c in ast.walk(node))
+
+    registering = {n for n, h in helpers.items() if any(isinstance(c, ast.Call) and isinstance(c.func, ast.Attribute) and c.func.attr == "register_method" for c in ast.walk(h))}
+
+    regs = {}
+
+    def _close(e, env):
+        """a sequence expression with the caller's names replaced by what they stand for"""
+        items = seq(e, env)
+        if items is None:
+            return e
+        return ast.Tuple(elts=[val(x, env) for x in items], ctx=ast.Load())
+
+    def run(stmts, env):
+        for st in stmts:
+            if isinstance(st, ast.Assign) and len(st.targets) == 1:
+                t = st.targets[0]
+                if isinstance(t, ast.Name):
+                    env[t.id] = val(st.value, env) if not isinstance(st.value, (ast.List, ast.Tuple, ast.BinOp)) else st.value
+                elif isinstance(t, (ast.Tuple, ast.List)) and isinstance(st.value, (ast.Tuple, ast.List)) and len(t.elts) == len(st.value.elts):
+                    vals = [val(x, env) for x in st.value.elts]
+                    for t_, v_ in zip(t.elts, vals):
+                        if isinstance(t_, ast.Name):
+                            env[t_.id] = v_
+                continue
+            if isinstance(st, ast.For):
+                items = seq(st.iter, env)
+                if items is None and isinstance(st.iter, ast.Call) and isinstance(st.iter.func, ast.Name) and st.iter.func.id == "range" and len(st.iter.args) == 1:
+                    a0 = st.iter.args[0]
+                    n_ = None
+                    if isinstance(a0, ast.Call) and isinstance(a0.func, ast.Name) and a0.func.id == "len" and len(a0.args) == 1:
+                        inner = seq(a0.args[0], env)
+                        n_ = len(inner) if inner is not None else None
+                    elif isinstance(val(a0, env), ast.Constant) and isinstance(val(a0, env).value, int):
+                        n_ = val(a0, env).value
+                    if n_ is not None and n_ <= 400:
+                        items = [ast.Constant(i) for i in range(n_)]
+                has_reg = registers(st)
+                if items is None:
+                    if has_reg:
+                        raise AnalysisError(f"PRIM-IS-NUMPY: the registration loop `for {src(st.target)} in {src(st.iter)[:60]}` of {mod.name} iterates over something that is not a literal sequence; cannot decide")
+                    continue
+                for it in items:
+                    e2 = dict(env)
+                    it = val(it, env)
+                    if isinstance(st.target, ast.Name):
+                        e2[st.target.id] = it
+                    elif isinstance(st.target, (ast.Tuple, ast.List)) and isinstance(it, (ast.Tuple, ast.List)) and len(it.elts) == len(st.target.elts) and all(isinstance(t, ast.Name) for t in st.target.elts):
+                        for t, x in zip(st.target.elts, it.elts):
+                            e2[t.id] = val(x, env)
+                    elif has_reg:
+                        raise AnalysisError(f"PRIM-IS-NUMPY: cannot bind `{src(st.target)}` in a registration loop of {mod.name}; cannot decide")
+                    run(st.body, e2)
+                continue
+            if isinstance(st, (ast.If, ast.With, ast.Try)):
+                if registers(st):
+                    raise AnalysisError(f"PRIM-IS-NUMPY: a registration of {mod.name} sits under `{type(st).__name__.lower()}`; cannot decide")
+                continue
+            for c in ast.walk(st) if not isinstance(st, (ast.FunctionDef, ast.ClassDef)) else []:
+                if isinstance(c, ast.Call) and isinstance(c.func, ast.Name) and c.func.id in registering:
+                    h = helpers[c.func.id]
+                    ps = [a.arg for a in h.args.posonlyargs + h.args.args]
+                    if len(c.args) > len(ps) or any(k.arg is None or k.arg not in ps for k in c.keywords) or h.args.vararg or h.args.kwarg:
+                        raise AnalysisError(f"PRIM-IS-NUMPY: cannot bind the call `{src(c)[:70]}` of the registering helper {h.name}; cannot decide")
+                    e2 = {}
+                    for p_, a_ in zip(ps, c.args):
+                        e2[p_] = val(a_, env) if not isinstance(a_, (ast.List, ast.Tuple, ast.BinOp)) else _close(a_, env)
+                    for k in c.keywords:
+                        e2[k.arg] = val(k.value, env) if not isinstance(k.value, (ast.List, ast.Tuple, ast.BinOp)) else _close(k.value, env)
+                    run([b for b in h.body if not (isinstance(b, ast.Expr) and isinstance(b.value, ast.Constant))], e2)
+                    continue
+                if isinstance(c, ast.Call) and isinstance(c.func, ast.Attribute) and c.func.attr == "register_method":
+                    a = list(c.args)
+                    kw = {k.arg: k.value for k in c.keywords}
+                    name = a[0] if a else kw.get("name")
+                    func = a[1] if len(a) > 1 else kw.get("func")
+                    name = val(name, env) if name is not None else None
+                    if not (isinstance(name, ast.Constant) and isinstance(name.value, str)) or func is None:
+                        raise AnalysisError(f"PRIM-IS-NUMPY: `{src(c)[:80]}` in {mod.name} registers under a name the rule cannot evaluate; cannot decide")
+                    func = val(func, env)
+                    holder = attr = None
+                    if isinstance(func, ast.Call) and isinstance(func.func, ast.Name) and func.func.id == "getattr" and len(func.args) == 2:
+                        h, n_ = val(func.args[0], env), val(func.args[1], env)
+                        if isinstance(n_, ast.Constant) and isinstance(n_.value, str):
+                            holder, attr = src(h), n_.value
+                    elif isinstance(func, ast.Attribute):
+                        holder, attr = src(val(func.value, env)), func.attr
+                    regs.setdefault(name.value, []).append((holder, attr, c))
+
+    run(mod.tree.body, {})
+    return regs
+
+
+def prim_is_numpy(ctx: Ctx):
+    repo, res = ctx.repo, ctx.res
+    mod = repo.module("tensorly.backend.numpy_backend")
+    cls = mod.classes.get("NumpyBackend")
+    if cls is None:
+        raise AnalysisError("PRIM-IS-NUMPY: NumpyBackend vanished")
+    np_names = {a.asname or a.name for st in mod.tree.body if isinstance(st, ast.Import) for a in st.names if a.name == "numpy"}
+    if not np_names:
+        raise AnalysisError("PRIM-IS-NUMPY: numpy_backend no longer imports numpy as a module; cannot decide")
+    regs = _module_registrations(repo, mod)
+    for prim in sorted(LAYOUT_PRIMS):
+        m = cls.methods.get(prim)
+        last = regs.get(prim, [])[-1] if regs.get(prim) else None
+        if last is not None:
+            # a registration replaces a method of the class body (setattr on the class, executed later)
+            holder, attr, node = last
+            ok = holder in np_names and attr == prim
+            res.instance("PRIM-IS-NUMPY", f"numpy backend: {prim} registered", sample={"from": f"{holder}.{attr}", "ok": ok})
+            if not ok:
+                ctx.finding("PRIM-IS-NUMPY", mod, node, f"the NumPy backend registers `{prim}` as `{holder}.{attr}`, not as NumPy's own `{prim}`: the layout rules of C01 trust this primitive to be NumPy's entry bijection", construct=f"numpy backend: {prim} <- {holder}.{attr}")
+            continue
+        if m is None:
+            raise AnalysisError(f"PRIM-IS-NUMPY: the NumPy backend neither registers nor defines `{prim}`; cannot decide")
+        body = [b for b in m.node.body if not (isinstance(b, ast.Expr) and isinstance(b.value, ast.Constant))]
+        ok, why = False, "is not a single `return np.%s(...)`" % prim
+        if len(body) == 1 and isinstance(body[0], ast.Return) and isinstance(body[0].value, ast.Call):
+            c = body[0].value
+            f_ = c.func
+            if isinstance(f_, ast.Attribute) and isinstance(f_.value, ast.Name) and f_.value.id in np_names and f_.attr == prim:
+                params = [p_ for p_ in m.all_params if p_ not in ("self", "cls")]
+                args_ok = all(isinstance(a, ast.Name) and a.id in params for a in c.args) and all(isinstance(k.value, ast.Name) and k.value.id in params for k in c.keywords if k.arg is not None) and not any(k.arg is None for k in c.keywords)
+                first_ok = (c.args and isinstance(c.args[0], ast.Name) and params and c.args[0].id == params[0]) or any(isinstance(k.value, ast.Name) and params and k.value.id == params[0] for k in c.keywords)
+                if args_ok and first_ok:
+                    ok = True
+                else:
+                    why = "passes something other than its own parameters to NumPy"
+            else:
+                why = f"returns `{src(c)[:70]}`: the outermost call is not `np.{prim}`, so NumPy's result is post-processed (or not used)"
+        res.instance("PRIM-IS-NUMPY", f"numpy backend: {prim} defined as a method", sample={"body": src(body[-1])[:100] if body else None, "ok": ok})
+        if not ok:
+            ctx.finding("PRIM-IS-NUMPY", m, m.node, f"NumpyBackend.{prim} {why}: unfold / fold / matricize are entry bijections only as far as this primitive is NumPy's own (what it keeps -- array subclass and mask, dtype, every entry -- a wrapper around it may not)", construct=f"NumpyBackend.{prim}: not NumPy's own")
 
 
 # ---------------------------------------------------------------------------------
